@@ -1,6 +1,263 @@
-(* C03_Proofs.v — lemmas about the codecs of C03_Model. *)
+(* C03_Proofs.v — codecs (enc/dec round trip per kind, composed structurally) and schema
+   flattening of C03_Model. *)
 From Verif Require Import Base C03_Model.
 Open Scope Z_scope.
 
+(* ------------------------------------------------------------------ *)
+(* kinds the field parser can produce: a serializer wraps the shapes it supports *)
+Fixpoint wfk (k : kind) : bool :=
+  match k with
+  | KPtr k' | KNull k' | KCustom k' => wfk k'
+  | KSer SUnix k' =>
+      match k' with KInt _ | KUint _ | KPtr (KInt _) | KPtr (KUint _) => true | _ => false end
+  | KSer _ k' => match k' with KStr | KPtr KStr => true | _ => false end
+  | _ => true
+  end.
+
+Ltac brk := repeat (match goal with
+   | H : Some _ = Some _ |- _ => inversion H; clear H; subst
+   | H : None = Some _ |- _ => discriminate H
+   | H : false = true |- _ => discriminate H
+   | H : context [if ?c then _ else _] |- _ => destruct c
+   | H : context [match ?x with _ => _ end] |- _ => is_var x; destruct x; cbn in H
+   end; try discriminate).
+
 Lemma enc_absent : forall k, enc k GAbsent = Some DNull.
 Proof. destruct k; reflexivity. Qed.
+
+Lemma dec_null : forall k, dec k DNull = zero k.
+Proof.
+  induction k as [w|w| | | |w| |k IH|k IH|k IH|s k IH]; cbn [dec zero]; try reflexivity.
+  - exact IH.
+  - destruct s; try exact IH; reflexivity.
+Qed.
+
+Lemma wtb_absent : forall k, wtb k GAbsent = false.
+Proof.
+  induction k as [w|w| | | |w| |k IH|k IH|k IH|s k IH]; cbn; try reflexivity.
+  - exact IH.
+  - destruct s; try exact IH. destruct k as [ | | | | | | |k'| | | ]; try reflexivity. destruct k'; reflexivity.
+Qed.
+
+(* a well-typed value stored as NULL is the nil value *)
+Lemma enc_null_nil : forall k v, wtb k v = true -> enc k v = Some DNull -> v = GNil.
+Proof.
+  induction k as [w|w| | | |w| |k IH|k IH|k IH|s k IH]; intros v Hw He.
+  - destruct v; cbn in *; try discriminate. destruct (int_ok w z); discriminate.
+  - destruct v; cbn in *; try discriminate. destruct (uint_ok w z); discriminate.
+  - destruct v; cbn in *; try discriminate.
+  - destruct v; cbn in *; try discriminate.
+  - destruct v; cbn in *; try discriminate. reflexivity.
+  - destruct v; cbn in *; try discriminate.
+  - destruct v; cbn in *; try discriminate.
+  - destruct v; cbn in *; try discriminate; try reflexivity.
+    apply andb_prop in Hw. destruct Hw as [_ Hn]. rewrite He in Hn. discriminate.
+  - destruct v; cbn in *; try discriminate; try reflexivity.
+    apply andb_prop in Hw. destruct Hw as [_ Hn]. rewrite He in Hn. discriminate.
+  - cbn in Hw. destruct v; try (apply IH; [exact Hw | exact He]).
+    rewrite wtb_absent in Hw. discriminate.
+  - destruct s.
+    + cbn in Hw. destruct v; try (apply IH; [exact Hw | exact He]). rewrite wtb_absent in Hw. discriminate.
+    + cbn in Hw. destruct v; try (apply IH; [exact Hw | exact He]). rewrite wtb_absent in Hw. discriminate.
+    + destruct k as [w|w| | | |w| |k'|k'|k'|s' k']; cbn in Hw; try discriminate.
+      * destruct v; try discriminate. cbn in He. destruct (int_ok w z); discriminate.
+      * destruct v; try discriminate.
+      * destruct k'; try discriminate; destruct v; try discriminate; try reflexivity;
+          destruct v; try discriminate; cbn in He; try discriminate.
+        destruct (int_ok w z); discriminate.
+Qed.
+
+(* ---- the round trip, without the storage step ---- *)
+Lemma roundtrip0 : forall k v d,
+  wfk k = true -> wtb k v = true -> enc k v = Some d -> dec k d = v.
+Proof.
+  induction k as [w|w| | | |w| |k IH|k IH|k IH|s k IH]; intros v d Hk Hw He.
+  - destruct v; cbn in *; try discriminate. destruct (int_ok w z); inversion He; reflexivity.
+  - destruct v; cbn in *; try discriminate. destruct (uint_ok w z); inversion He; reflexivity.
+  - destruct v; cbn in *; try discriminate. inversion He. destruct b; reflexivity.
+  - destruct v; cbn in *; try discriminate. inversion He; reflexivity.
+  - destruct v; cbn in *; try discriminate; inversion He; reflexivity.
+  - destruct v; cbn in *; try discriminate. inversion He; reflexivity.
+  - destruct v; cbn in *; try discriminate. inversion He; reflexivity.
+  - destruct v; cbn in Hw; try discriminate.
+    + cbn in He. inversion He. reflexivity.
+    + apply andb_prop in Hw. destruct Hw as [Hw Hn]. cbn in He.
+      cbn [dec]. rewrite (IH v d Hk Hw He).
+      destruct d; try reflexivity. rewrite He in Hn. discriminate.
+  - destruct v; cbn in Hw; try discriminate.
+    + cbn in He. inversion He. reflexivity.
+    + apply andb_prop in Hw. destruct Hw as [Hw Hn]. cbn in He.
+      cbn [dec]. rewrite (IH v d Hk Hw He).
+      destruct d; try reflexivity. rewrite He in Hn. discriminate.
+  - cbn in Hk, Hw. cbn [dec]. apply IH; try assumption.
+    destruct v; try exact He; rewrite wtb_absent in Hw; discriminate.
+  - destruct s.
+    + (* json *)
+      cbn [dec]. cbn in Hw. apply IH; try assumption.
+      * destruct k as [ | | |  | | | |k'| | | ]; cbn in Hk; try discriminate; try reflexivity.
+        destruct k'; try discriminate; reflexivity.
+      * destruct v; try exact He; rewrite wtb_absent in Hw; discriminate.
+    + (* gob *)
+      cbn [dec]. cbn in Hw. apply IH; try assumption.
+      * destruct k as [ | | |  | | | |k'| | | ]; cbn in Hk; try discriminate; try reflexivity.
+        destruct k'; try discriminate; reflexivity.
+      * destruct v; try exact He; rewrite wtb_absent in Hw; discriminate.
+    + (* unixtime: seconds -> instant -> seconds *)
+      destruct k as [w|w| | | |w| |k'|k'|k'|s' k']; cbn in Hk; try discriminate.
+      * destruct v; cbn in Hw; try discriminate. cbn in He.
+        destruct (int_ok w z); inversion He. cbn. f_equal. apply Z.div_mul. unfold giga; lia.
+      * destruct v; cbn in Hw; try discriminate; cbn in He; discriminate.
+      * destruct k'; try discriminate.
+        -- destruct v; cbn in Hw; try discriminate.
+           ++ cbn in He. inversion He. reflexivity.
+           ++ destruct v; try discriminate. cbn in He.
+              destruct (int_ok w z); inversion He. cbn. do 2 f_equal. apply Z.div_mul. unfold giga; lia.
+        -- destruct v; cbn in Hw; try discriminate; cbn in He; try discriminate;
+             destruct v; discriminate.
+Qed.
+
+(* what enc produces agrees with the affinity of the column the dialector declares for the kind *)
+Lemma enc_compatible : forall k v d,
+  wfk k = true -> enc k v = Some d -> compatible (col_aff k) d = true.
+Proof.
+  induction k as [w|w| | | |w| |k IH|k IH|k IH|s k IH]; intros v d Hk He;
+    try (destruct v; cbn in He; try discriminate; inversion He; reflexivity).
+  - destruct v; cbn in He; try discriminate; try (inversion He; reflexivity).
+    destruct (int_ok w z); inversion He; reflexivity.
+  - destruct v; cbn in He; try discriminate; try (inversion He; reflexivity).
+    destruct (uint_ok w z); inversion He; reflexivity.
+  - destruct v; cbn in He; try discriminate; try (inversion He; reflexivity).
+    cbn [col_aff]. eapply IH; eauto.
+  - destruct v; cbn in He; try discriminate; try (inversion He; reflexivity).
+    cbn [col_aff]. eapply IH; eauto.
+  - cbn [col_aff]. cbn in Hk. destruct v; try (eapply IH; [exact Hk | exact He]).
+    cbn in He. inversion He. destruct (col_aff k); reflexivity.
+  - destruct s; cbn [col_aff]; cbn in Hk.
+    + destruct v; try (cbn in He; inversion He; reflexivity); repeat (progress (cbn in *; brk)); reflexivity.
+    + destruct v; try (cbn in He; inversion He; reflexivity); repeat (progress (cbn in *; brk)); reflexivity.
+    + destruct v; try (cbn in He; inversion He; reflexivity); repeat (progress (cbn in *; brk)); reflexivity.
+Qed.
+
+Section Store.
+  (* SQLite's storage step: a Section variable with its hypothesis (environment, validated by the
+     raw dumps of every run) *)
+  Variable store : aff -> dbval -> dbval.
+  Hypothesis store_keeps : forall a d, compatible a d = true -> store a d = d.
+
+  Theorem codec_roundtrip : forall k v d,
+    wfk k = true -> wtb k v = true -> enc k v = Some d ->
+    dec k (store (col_aff k) d) = v.
+  Proof.
+    intros k v d Hk Hw He. rewrite store_keeps by (eapply enc_compatible; eauto).
+    apply roundtrip0; assumption.
+  Qed.
+
+  (* a leaf under a nil embedded pointer is written as NULL and read back as the zero value *)
+  Theorem codec_roundtrip_absent : forall k,
+    exists d, enc k GAbsent = Some d /\ dec k (store (col_aff k) d) = norm k GAbsent.
+  Proof.
+    intro k. exists DNull. split; [apply enc_absent|].
+    rewrite store_keeps by reflexivity. apply dec_null.
+  Qed.
+End Store.
+
+(* ---- representable values are accepted ---- *)
+Fixpoint signed_unix (k : kind) : bool :=
+  match k with
+  | KPtr k' | KNull k' | KCustom k' => signed_unix k'
+  | KSer SUnix k' => match k' with KInt _ | KPtr (KInt _) => true | _ => false end
+  | KSer _ k' => signed_unix k'
+  | _ => true
+  end.
+
+Lemma representable_enc : forall k v,
+  wfk k = true -> signed_unix k = true -> wtb k v = true -> in_range k v = true ->
+  exists d, enc k v = Some d.
+Proof.
+  induction k as [w|w| | | |w| |k IH|k IH|k IH|s k IH]; intros v Hk Hs Hw Hr;
+    try (destruct v; cbn in Hw; try discriminate; cbn; eexists; reflexivity).
+  - destruct v; cbn in Hw; try discriminate. cbn in Hr. cbn. rewrite Hr. eexists; reflexivity.
+  - destruct v; cbn in Hw; try discriminate. cbn in Hr. cbn. rewrite Hr. eexists; reflexivity.
+  - destruct v; cbn in Hw; try discriminate; cbn.
+    + eexists; reflexivity.
+    + apply andb_prop in Hw. destruct Hw as [Hw _]. apply IH; auto.
+  - destruct v; cbn in Hw; try discriminate; cbn.
+    + eexists; reflexivity.
+    + apply andb_prop in Hw. destruct Hw as [Hw _]. apply IH; auto.
+  - cbn in Hk, Hs, Hw.
+    destruct v; try (cbn in Hr; cbn [enc]; apply IH; assumption).
+    rewrite wtb_absent in Hw. discriminate.
+  - destruct s; cbn in Hk, Hs.
+    + destruct k as [ | | |  | | | |k'| | | ]; try discriminate; [|destruct k'; try discriminate];
+        destruct v; cbn in Hw; try discriminate; try (cbn; eexists; reflexivity).
+      destruct v; cbn in Hw; try discriminate. cbn; eexists; reflexivity.
+    + destruct k as [ | | |  | | | |k'| | | ]; try discriminate; [|destruct k'; try discriminate];
+        destruct v; cbn in Hw; try discriminate; try (cbn; eexists; reflexivity).
+      destruct v; cbn in Hw; try discriminate. cbn; eexists; reflexivity.
+    + destruct k as [w|w| | | |w| |k'|k'|k'|s' k']; try discriminate.
+      * destruct v; cbn in Hw; try discriminate. cbn in Hr. cbn. rewrite Hr. eexists; reflexivity.
+      * destruct k'; try discriminate. destruct v; cbn in Hw; try discriminate.
+        -- cbn. eexists; reflexivity.
+        -- destruct v; try discriminate. cbn in Hr. cbn. rewrite Hr. eexists; reflexivity.
+Qed.
+
+(* ------------------------------------------------------------------ *)
+(* schema flattening *)
+Lemma insert_field_fresh : forall acc col path,
+  ~ In col (map fst acc) -> insert_field acc col path = acc ++ [(col, path)].
+Proof.
+  induction acc as [|[c p] acc IH]; intros col path Hn; cbn.
+  - reflexivity.
+  - destruct (String.eqb c col) eqn:E.
+    + apply String.eqb_eq in E. exfalso. apply Hn. left. exact E.
+    + f_equal. apply IH. intro H. apply Hn. right. exact H.
+Qed.
+
+Lemma dbnames_from_distinct : forall fs acc,
+  NoDup (map fst acc ++ map snd fs) ->
+  dbnames_from fs acc = acc ++ map (fun f => (snd f, fst f)) fs.
+Proof.
+  induction fs as [|[p c] fs IH]; intros acc Hnd; cbn.
+  - rewrite app_nil_r. reflexivity.
+  - unfold dbnames_from in *. cbn [fold_left fst snd].
+    rewrite insert_field_fresh.
+    + rewrite IH.
+      * rewrite <- app_assoc. reflexivity.
+      * rewrite map_app. cbn. rewrite <- app_assoc. exact Hnd.
+    + cbn in Hnd. apply NoDup_remove_2 in Hnd. intro H. apply Hnd. apply in_or_app. left. exact H.
+Qed.
+
+(* distinct column names: DBNames lists the fields in declaration order and every column name
+   looks up the field that declares it *)
+Theorem flatten_injective : forall tree,
+  NoDup (map snd (fields_of tree)) ->
+  dbnames tree = map (fun f => (snd f, fst f)) (fields_of tree)
+  /\ NoDup (map fst (dbnames tree)).
+Proof.
+  intros tree Hnd. unfold dbnames.
+  assert (E : dbnames_from (fields_of tree) [] = map (fun f => (snd f, fst f)) (fields_of tree)).
+  { rewrite dbnames_from_distinct; [reflexivity | exact Hnd]. }
+  split; [exact E|]. rewrite E. rewrite map_map. cbn. exact Hnd.
+Qed.
+
+Lemma string_app_inj_l : forall p a b : string, (p ++ a = p ++ b)%string -> a = b.
+Proof. induction p as [|ch p IH]; intros a b H; cbn in H; [exact H | inversion H; auto]. Qed.
+
+(* embeddedPrefix keeps the columns of an embedded struct distinct *)
+Lemma prefix_nodup : forall (p : string) (l : list string),
+  NoDup l -> NoDup (map (fun c => (p ++ c)%string) l).
+Proof.
+  intros p l H. induction H as [|x l Hx Hl IH]; cbn; constructor; [|exact IH].
+  intro Hin. apply in_map_iff in Hin. destruct Hin as [y [Hy Hin]].
+  apply string_app_inj_l in Hy. subst y. contradiction.
+Qed.
+
+Lemma flatten_embed_cols : forall nm p kids,
+  map snd (flatten (FEmbed nm p kids)) = map (fun c => (p ++ c)%string) (map snd (fields_of kids)).
+Proof.
+  intros nm p kids. cbn [flatten]. rewrite map_map. cbn [snd].
+  assert (E : (fix go (l : list fnode) := match l with [] => [] | x :: r => flatten x ++ go r end) kids
+              = fields_of kids).
+  { unfold fields_of. induction kids as [|k r IH]; cbn; [reflexivity | rewrite IH; reflexivity]. }
+  rewrite E. rewrite map_map. reflexivity.
+Qed.
